@@ -3954,7 +3954,24 @@ class PackChunkGenerator:
                 raw = unpacked.decomp_chunks
             chunks: list[bytes] | Iterator[bytes]
             if unpacked.comp_chunks is not None and reuse_compressed:
-                chunks = unpacked.comp_chunks
+                # comp_chunks hold the zlib stream only (see
+                # read_zlib_chunks); the entry header is still ours to write.
+                size = unpacked.decomp_len
+                if size is None:
+                    size = chunks_length(unpacked.decomp_chunks)
+                chunks = chain(
+                    [
+                        bytes(
+                            pack_object_header(
+                                type_num,
+                                raw[0] if isinstance(raw, tuple) else None,
+                                size,
+                                object_format=self.object_format,
+                            )
+                        )
+                    ],
+                    unpacked.comp_chunks,
+                )
             else:
                 chunks = pack_object_chunks(
                     type_num,
